@@ -81,7 +81,7 @@ def rule_no_star_into_fixed_arity(eng, rep, rule="C06-2.user-tuples-not-star-exp
     rep.note(rule, "package", "%d internal call sites star-expand a user tuple" % n)
     # positive control: the rule's matcher is alive iff it recognises user tuples at the callback sites
     alive = sum(1 for ci in eng.res.calls.values() if ci.role and any(isinstance(a, ast.Starred) and any(x[0] == "U" for x in eng.res.ev(ci.caller, a.value)) for a in ci.node.args))
-    rep.require_count(rule, "starred user tuples recognised anywhere (matcher alive)", alive, 10)
+    rep.require_count(rule, "starred user tuples recognised anywhere (matcher alive)", alive, 3)      # at least objfun, h and prox_uh (today 20+)
     if n == 0:
         rep.ok(rule, "package", "no internal call star-expands a user tuple")
 
